@@ -103,6 +103,10 @@ class Shard(threading.Thread):
                     self.out.put(("case", current))
                     self.next_k = current.k + self.stride
                     current = None
+                elif t_ == "hang" and current is not None:
+                    # the worker's own watchdog fired: what it saw of its threads just before giving up
+                    current.obs = dict(current.obs or {})
+                    current.note = json.dumps({"all_asleep": bool(v.get("all_asleep")), "threads": v.get("threads"), "cpu_ticks_in_1500ms": v.get("cpu_ticks_in_1500ms")})
                 elif t_ == "done":
                     done = True
             rc = p.wait()
